@@ -262,9 +262,13 @@ class Ctx:
             if not b.endswith("_test.go"):
                 b = b[:-3] + "_test.go"
             ov[os.path.join(REPO, "mocks", "zz_verif_" + b)] = f
-        p = os.path.join(self.scratch, "overlay.json")
-        with open(p, "w") as f:
-            json.dump({"Replace": ov}, f)
+        import hashlib
+        body = json.dumps({"Replace": ov}, sort_keys=True)
+        p = os.path.join(self.scratch, "overlay-%s.json" % hashlib.sha1(body.encode()).hexdigest()[:10])
+        if not os.path.exists(p):
+            with open(p + ".tmp%d" % os.getpid(), "w") as f:
+                f.write(body)
+            os.replace(p + ".tmp%d" % os.getpid(), p)
         return p
 
     def go_test(self, run, pkg=".", env=None, timeout=300, name=None, race=False, only=None):
